@@ -551,56 +551,60 @@ def _parse_attrs(ctx: Ctx, c: Collector) -> None:
            "mo": ("idx", c_out.term, T.const(0)), "eo": ("idx", c_out.term, T.const(1))}
     EMPTY = call(T.glob("frozenset"))
     want = {("time-based", "ei"), ("event-based", "mi"), ("time-based", "eo"), ("event-based", "mo")}
-    got = set()
     odd = []
-    for r in s.of_kind("raise"):
-        gt = T.guard_term(r.guards[-1])
-        if gt[0] == "cmp" and gt[1] == "notin" and gt[2] == typ:
-            continue          # an unknown simulator type is rejected up front (it crashed further down before)
-        # decided per simulator type: with the type fixed, the rejection must depend on exactly one "result is empty"
-        try:
-            lvs = boolfn.leaves(gt)
-        except boolfn.NotBoolean:
-            lvs = None
-        ty_l = [l for l in (lvs or []) if l[0] == "cmp" and l[1] == "==" and typ in (l[2], l[3]) and [y for y in (l[2], l[3]) if y != typ][0][0] == "const"]
-        em_l = [l for l in (lvs or []) if l[0] == "cmp" and l[1] == "==" and EMPTY in (l[2], l[3]) and any(v == [y for y in (l[2], l[3]) if y != EMPTY][0] for v in res.values())]
-        if lvs is not None and ty_l and em_l and len(ty_l) + len(em_l) == len(lvs) and len(em_l) <= 2:
-            ok_here = True
-            hits = set()
-            for ty in ("time-based", "event-based", "hybrid"):
-                a0 = {l: ([y for y in (l[2], l[3]) if y != typ][0][1] == ty) for l in ty_l}
-                dep = []
-                for l in em_l:
-                    # does emptiness of this result alone decide the rejection?
-                    outcomes = set()
-                    for bits in range(1 << len(em_l)):
-                        a = dict(a0)
-                        for i2, l2 in enumerate(em_l):
-                            a[l2] = bool(bits >> i2 & 1)
-                        outcomes.add((a[l], boolfn.eval_leaves(gt, a)))
-                    if outcomes == {(True, False), (False, True)}:
-                        dep.append(l)
-                    elif any(f for _e, f in outcomes) and not all(f == (not e_) for e_, f in outcomes):
-                        pass
-                fires_ever = any(boolfn.eval_leaves(gt, {**a0, **{l2: bool(bits >> i2 & 1) for i2, l2 in enumerate(em_l)}}) for bits in range(1 << len(em_l)))
-                if not fires_ever:
-                    continue
-                if len(dep) != 1:
-                    ok_here = False
-                    break
-                sub = [y for y in (dep[0][2], dep[0][3]) if y != EMPTY][0]
-                hits.add((ty, [k for k, v in res.items() if v == sub][0]))
-            if ok_here and hits:
-                got |= hits
-                if not (r.term[0] == "call" and r.term[1] == T.glob("ValueError")):
-                    odd.append("a forbidden-kind rejection is not a ValueError")
-                continue
-        odd.append(f"rejection under {T.show(gt)[:80]} not recognised")
     pr = []
     full = {"ei": "trigger inputs", "mi": "non-trigger inputs", "eo": "non-persistent outputs", "mo": "persistent outputs"}
-    for ty, k in sorted(want - got):
+    # one joint decision table over all rejections: per simulator type and per combination of "this result is empty",
+    # some rejection fires exactly when a result that the type forbids is not empty -- however the tests are nested,
+    # ordered, split into helpers or merged
+    cand = []
+    for r in s.of_kind("raise"):
+        gts = [T.guard_term(g) for g in r.guards]
+        if any(gt[0] == "cmp" and gt[1] == "notin" and gt[2] == typ for gt in gts):
+            continue          # an unknown simulator type is rejected up front (it crashed further down before)
+        g_all = ("and", tuple(gts)) if len(gts) != 1 else gts[0]
+        try:
+            lvs = boolfn.leaves(g_all)
+        except boolfn.NotBoolean:
+            odd.append(f"rejection under {T.show(gts[-1])[:80]} not recognised")
+            continue
+        kinds = {}
+        okl = True
+        for l in lvs:
+            if l[0] == "cmp" and l[1] == "==" and typ in (l[2], l[3]) and [y for y in (l[2], l[3]) if y != typ][0][0] == "const":
+                kinds[l] = ("type", [y for y in (l[2], l[3]) if y != typ][0][1])
+            elif l[0] == "cmp" and l[1] == "==" and EMPTY in (l[2], l[3]) and any(v == [y for y in (l[2], l[3]) if y != EMPTY][0] for v in res.values()):
+                sub = [y for y in (l[2], l[3]) if y != EMPTY][0]
+                kinds[l] = ("empty", [k for k, v in res.items() if v == sub][0])
+            else:
+                okl = False
+        if not okl or not any(k[0] == "empty" for k in kinds.values()):
+            if any(k[0] == "empty" for k in kinds.values()):
+                odd.append(f"rejection under {T.show(gts[-1])[:80]} not recognised")
+            continue
+        cand.append((r, g_all, kinds))
+        if not (r.term[0] == "call" and r.term[1] == T.glob("ValueError")):
+            odd.append("a forbidden-kind rejection is not a ValueError")
+    keys = ["mi", "ei", "mo", "eo"]
+    missing, extra = set(), set()
+    for ty in ("time-based", "event-based", "hybrid"):
+        for bits in range(16):
+            empty = {k: not (bits >> i & 1) for i, k in enumerate(keys)}
+            fired = False
+            for r, g_all, kinds in cand:
+                a = {l: ((kd[1] == ty) if kd[0] == "type" else empty[kd[1]]) for l, kd in kinds.items()}
+                if boolfn.eval_leaves(g_all, a):
+                    fired = True
+            should = any((ty, k) in want and not empty[k] for k in keys)
+            nonempty = [k for k in keys if not empty[k]]
+            if should and not fired and len(nonempty) == 1:
+                missing.add((ty, nonempty[0]))
+            if fired and not should:
+                for k in nonempty or ["mi"]:
+                    extra.add((ty, k))
+    for ty, k in sorted(missing):
         pr.append(f"{ty} simulators with {full[k]} are not rejected")
-    for ty, k in sorted(got - want):
+    for ty, k in sorted(extra):
         pr.append(f"{ty} simulators with {full[k]} are rejected")
     c.add("forbidden", PARSE, "forbidden-kind guards (4 siblings)", VIOLATED if pr else (UNKNOWN if odd else DISCHARGED), "; ".join(pr + odd), loc)
     # returned tuple order
